@@ -475,6 +475,8 @@ class Path(PathRun):
                     ex.heap_arr(st, cn, f, fty)
                     self.ensure_old(cn, f)
         for (okey, of), oty in self.OFIELDS.items():
+            if okey not in self.p.tenv.named:
+                continue
             if (okey, of) not in st.heap and (fields is None or of in fields):
                 srt = self.S.sort(self.p.tenv.named[okey])
                 st.heap[(okey, of)] = z3.Const(
@@ -500,6 +502,8 @@ class Path(PathRun):
                     ex.heap_arr(st, cn, f, fty)
                     self.ensure_old(cn, f)
         for (okey, of), oty in self.OFIELDS.items():
+            if okey not in self.p.tenv.named:
+                continue
             if (okey, of) not in st.heap and (fields is None or of in fields):
                 srt = self.S.sort(self.p.tenv.named[okey])
                 st.heap[(okey, of)] = z3.Const(
@@ -820,6 +824,7 @@ def run_one(
     run.raises_ok = list(c.raises)
     run.env = dict(c.env)
     run.entry_locs = dict(locs)
+    run.fn_entry_locs = dict(locs)
     try:
         for r in c.requires:
             st.assume(run.spec(r))
